@@ -15,6 +15,11 @@ CLAIMED = {
  "C18": ("exploration", "counting monitors over the allocator event ledger and as_ptr(): capacity served without new chunk, chunk_capacity probes, reserved Vec/String capacity without move, explicit geometric-growth bounds at volumes 1e3..1e7", "3/C18"),
  "C19": ("exploration", "boundary-grid enumeration per size-taking entry point (Bump, Vec, String) under a capped allocator; oracle: Err/panic required, Ok only if the claimed extent is really held", "3/C19"),
  "C20": ("exploration", "solo-vs-interleaved per-call trace equality (single thread, one arena per thread, hand-over between threads); ThreadSanitizer and Miri data-race detection on multi-arena schedules", "3/C20"),
+ "C13": ("exploration", "differential executor against std::vec::Vec after every op (outcome class, values, contents, length, capacity promises) with neighbours in the same arena as canaries; debug+release, Miri, ASan", "3/C13"),
+ "C15": ("exploration", "drop ledger with unique ids: per-op drop multisets compared with a std reference program, double-drop / reachable-after-drop / leak-by-design checks; Miri for stale bit-copies", "3/C15"),
+ "C16": ("fault_enumeration", "enumerated panic points (k-th callback invocation) x callback-taking operations x follow-ups; drop ledger + reachability + UTF-8 + arena-usable oracles", "3/C16"),
+ "C14": ("exploration", "differential executor against std::string::String + UTF-8 validity after every op; decoders compared with std exhaustively up to 3 (quick) / 4 (thorough) bytes, then by structure and at random", "3/C14"),
+ "C17": ("exploration", "differential against std::boxed::Box + drop ledger for ownership transfers + allocator-event and accounting monitor around every Box drop", "3/C17"),
  "C10": ("exploration", "chunk iterators compared with ledger order/extents and with the shadow of live blocks; exact tiling oracle on uniform histories", "3/C10"),
 }
 NOT_YET = {}
